@@ -714,6 +714,15 @@ def run(ctx):
 
 def _run(ctx):
     parse_tlv, gen_tlv = impl()[0], impl()[1]
+    if ctx.proof is not None and getattr(ctx.proof, "failed", None):
+        import re
+
+        log = ctx.proof.build_log or ""
+        ctx.extra["proof_step"] = {
+            "modules_with_errors": sorted(set(re.findall(r"^- (N0Verif\.\S+)", log, re.M))),
+            "first_errors": [l[:240] for l in log.split("\n") if l.startswith("error: N0Verif")][:6],
+            "generated_text_differs_from_unchanged_code": ctx.extra.get("translated", {}).get("differs_from_unchanged_code"),
+        }
     n = ctx.budget(3000, 40000)
 
     # ---- B0: int()
